@@ -78,12 +78,17 @@ def gen_engine_case(rnd):
             r['priority'] = rnd.randint(0, 3)
         rules.append(r)
     case = {'kind': 'engine', 'rules': rules, 'modes': ['first_match', 'most_specific'],
-            'variables': [('big', rnd.choice(['amount > 100', 'amount > "x"', 'nope + 1'] + LAZY_VALUE)),
+            'variables': [('big', rnd.choice(['amount > 100', 'amount > "x"', 'nope + 1', 'field.memo == "REF 9"', 'len(field.memo) > 2']
+                                             + LAZY_VALUE)),
                           ('w0', rnd.choice(['rows', 'field.nope', '5', '(r for r in rows)']))][:rnd.randint(1, 2)] if rnd.random() < .5 else [],
             'transforms': [('field.description', rnd.choice(['regex_replace(field.description, "^SQ \\\\*", "")',
                                                              'field.description + 1', 'uppercase(field.nope)']))] if rnd.random() < .3 else [],
             'data_sources': {'rows': [{'item': 'Book', 'amount': 12.5}, {'item': 'Pen', 'amount': 3.0}], 'empty': []},
             'txns': []}
+    if case['variables']:
+        # rules that read the top-level variables (which may be unevaluable for SOME transactions only, e.g. field.memo)
+        for r in rnd.sample(rules, k=min(len(rules), rnd.randint(1, 2))):
+            r['match'] = rnd.choice(['big', 'big or contains("NETFLIX")', 'not big', 'big and amount > 0', 'len(w0) >= 0 or big'])
     for _ in range(3):
         case['txns'].append({'description': rnd.choice(DESCS), 'amount': rnd.choice([-5.0, 12.5, 150.0, 0.0, 2500.0]),
                              'date': rnd.choice(['2025-02-28', '2025-12-31', None]), 'source': rnd.choice(['Amex', 'Chase']),
@@ -133,6 +138,15 @@ def oracle(case, r):
             if 'raises' in it.get('failing', {}):
                 bad.append((f'C08/evaluator-raises-non-expression-error:{it["failing"]["raises"]}', it['txn']))
                 continue
+            # a rule whose own condition is true (bindings that fail count as None) must take part: in first_match mode
+            # the first such categorizing rule decides the category
+            if it['mode'] == 'first_match' and 'indep_matching' in it:
+                cat = [i for i in it['indep_matching'] if case['rules'][i].get('category')]
+                want = case['rules'][cat[0]]['name'] if cat else None
+                if f['ok'].get('rule') != want:
+                    bad.append(('C08/rule-with-evaluable-condition-skipped-or-wrong-winner',
+                                {'txn': it['txn'], 'expected_rule': want, 'got_rule': f['ok'].get('rule'),
+                                 'rules_whose_condition_is_true': it['indep_matching']}))
             red = it.get('reduced')
             if red is None:
                 continue
